@@ -209,6 +209,7 @@ func checkC05(r *core.Run) {
 	}
 	gb("weight", "weight above 4,000,000 is rejected", an.MatchCmpConst(4000000, token.GTR, "~.BlockWeight"))
 	c05Weight(r, p)
+	c05MerkleMutation(r, p)
 	gb("first-is-coinbase", "a first transaction that is not a coinbase is rejected", func(iff *ssa.If) (bool, bool) {
 		ok, f := an.MatchBoolCall(false, "(*lib/btc.Tx).IsCoinBase")(iff)
 		if !ok {
@@ -826,4 +827,47 @@ func c05Weight(r *core.Run, p *core.Program) {
 	}
 	sort.Strings(odd)
 	r.Check(len(inits) == 2 && okInc && len(odd) == 0, rule, "weight/formula", p.Pos(fn.Pos()), fmt.Sprintf("both paths start from 4*(80+size of the count) and add 3*NoWitSize+Size per transaction (%d starts, %d increments)", len(inits), len(incs)), fmt.Sprintf("block weight: %d start value(s) equal to 4*(80+VLenSize(TxCount)) (2 expected), %d increment(s); other forms: %s", len(inits), len(incs), strings.Join(odd, " ; ")))
+}
+
+// c05MerkleMutation: CVE-2012-2459. The "mutated" test of the Merkle computation compares exactly the two
+// nodes that are hashed together in that step (at every level of the tree, not only the leaves), and only
+// when they are two different positions.
+func c05MerkleMutation(r *core.Run, p *core.Program) {
+	const rule = "R-C05-body"
+	fn := p.Func("lib/btc.CalcMerkle")
+	if fn == nil {
+		r.Fail(rule, "merkle/mutation-test", "-", "CalcMerkle not found")
+		return
+	}
+	eq := an.CallsTo(fn, false, "bytes.Equal")
+	writes := map[string]bool{}
+	an.Instrs(fn, func(i ssa.Instruction) {
+		if c, ok := i.(*ssa.Call); ok && c.Call.IsInvoke() && c.Call.Method.Name() == "Write" {
+			writes[an.Expr(c.Call.Args[0])] = true
+		}
+	})
+	ok := len(eq) == 1
+	why := fmt.Sprintf("%d comparisons of sibling nodes, one expected", len(eq))
+	if ok {
+		a, b := an.Expr(eq[0].Common().Args[0]), an.Expr(eq[0].Common().Args[1])
+		switch {
+		case a == b:
+			ok, why = false, "a node is compared with itself"
+		case !writes[a] || !writes[b]:
+			ok, why = false, "the nodes compared ("+a+" and "+b+") are not the two nodes hashed together in that step"
+		}
+		// the comparison is made for two different positions only
+		if ok {
+			diff := false
+			for _, dc := range an.DomConds(eq[0].(ssa.Instruction).Block()) {
+				if strings.Contains(dc.Cond, " != ") && dc.True && !strings.Contains(dc.Cond, "nil") {
+					diff = true
+				}
+			}
+			if !diff {
+				ok, why = false, "the comparison is not restricted to two different positions (an odd last node is paired with itself legitimately)"
+			}
+		}
+	}
+	r.Check(ok, rule, "merkle/mutation-test", p.Pos(fn.Pos()), "the duplicate test compares the two nodes hashed together, at every level", why)
 }
